@@ -132,13 +132,29 @@ def res_term(outcome, payload):
 LIMIT_ROUTES = ["int", "engine", "convert", "#iter"]
 
 
+_combinators = []
+
+
+def combinators():
+    """[(label, smart type)] accepting a generator, built from yaqltypes by gen_limitfacts."""
+    if not _combinators:
+        eng, ctx = engine(), fresh_ctx()
+        for label, vt in gen_limitfacts.combinator_instances():
+            if vt.check((x for x in ()), ctx, eng):
+                _combinators.append((label, vt))
+    return _combinators
+
+
 def run_limit(N, items, endless, route, how="copy"):
     src = Src(items, endless, cap=CAP)
     eng = engine_of(how, limitIterators=N)
     ctx = fresh_ctx()
     out, got = "Ok", []
     try:
-        if route == "int":
+        if route.startswith("combinator:"):
+            vt = dict(combinators())[route[len("combinator:"):]]
+            w = vt.convert(src, utils.NO_VALUE, ctx, None, eng)
+        elif route == "int":
             w = utils.limit_iterable(src, N)
         elif route == "engine":
             w = utils.limit_iterable(src, eng)
@@ -190,11 +206,14 @@ def gen_limit_cases(run, n):
 def c_limit(run, n, terms, meta):
     for i, (N, items, endless) in enumerate(gen_limit_cases(run, n)):
         route = LIMIT_ROUTES[i % 4]
+        if i % 8 >= 4:               # the same protocol through a parameter type declared with a combinator
+            combs = combinators()
+            route = "combinator:" + combs[(i // 8) % len(combs)][0]
         how = how_of(i, 4)
         out, got, pulls = run_limit(N, items, endless, route, how)
         run.case(("limit", N, tuple(items), endless, route, how), nontrivial=endless or len(items) >= N)
         run.count("limit:%s" % out)
-        run.count("limit-route:%s" % route)
+        run.count("limit-route:%s" % route.split(":")[0])
         run.count("options-route:%s" % how)
         if i % 41 == 0:
             run.sample({"kind": "limit", "N": N, "items": items, "endless": endless, "route": route,
@@ -1436,8 +1455,119 @@ def o_direct(run, deep):
                      {"kind": kind, "input": inp, "observed": {"outcome": out, "pulls": pulls}, "required": pred})
 
 
+# ---- host-registered functions with combinator-declared collection parameters ----
+POSITIONS = ["positional", "keyword", "receiver"]
+
+
+def host_context(vt):
+    """A child context with a host function / method whose collection parameter is declared `vt`."""
+    from yaql.language import specs
+    ctx = fresh_ctx()
+
+    def drain(values):
+        n = 0
+        if values is not None and not isinstance(values, (int, float, str)):
+            for _ in values:
+                n += 1
+        return n
+
+    @specs.parameter("values", vt)
+    def total(values, bonus=0):
+        return drain(values) + bonus
+
+    @specs.parameter("values", vt)
+    @specs.method
+    def mtotal(values, bonus=0):
+        return drain(values) + bonus
+
+    ctx.register_function(total)
+    ctx.register_function(mtotal)
+    return ctx
+
+
+HOST_TEXT = {"positional": "total($v)", "keyword": "total(bonus => 1, values => $v)", "receiver": "$v.mtotal()"}
+
+
+def run_host(label, position, what, N, how):
+    """what: 'endless' | 'sized+1' | 'sized' | 'quota'.  -> (outcome, pulls)"""
+    vt = dict(gen_limitfacts.combinator_instances())[label]
+    ctx = host_context(vt)
+    src = None
+    if what == "endless":
+        src = ctx["v"] = Src([], True, cap=CAP)
+    elif what == "sized+1":
+        ctx["v"] = tuple(range(N + 1))
+    elif what == "sized":
+        ctx["v"] = tuple(range(N))
+    else:
+        ctx["v"] = tuple(range(200))
+    opts = dict(limitIterators=N) if what != "quota" else dict(memoryQuota=400)
+    try:
+        r = statement(HOST_TEXT[position], how, **opts).evaluate(context=ctx)
+        out = "Ok:%r" % (r,)
+    except exceptions.CollectionTooLargeException:
+        out = "TooLarge"
+    except exceptions.MemoryQuotaExceededException:
+        out = "Quota"
+    except PullCap:
+        out = "Diverges"
+    except Exception as e:
+        out = "Other:" + type(e).__name__
+    return out, (src.pulls if src is not None else 0)
+
+
+def host_predicate(what, N, out, pulls, position):
+    bonus = 1 if position == "keyword" else 0
+    if what == "endless":
+        if pulls > N + 1 or out != "TooLarge":
+            return "an endless source handed to the parameter was pulled %d times (allowed %d), outcome %s" % (pulls, N + 1, out)
+    elif what == "sized+1":
+        if out != "TooLarge":
+            return "a sized collection of %d elements was accepted under limit %d (%s)" % (N + 1, N, out)
+    elif what == "sized":
+        if out != "Ok:%d" % (N + bonus):
+            return "a sized collection of %d elements under limit %d gave %s" % (N, N, out)
+    elif out != "Quota":
+        return "a 1640-byte collection was bound to the parameter under yaql.memoryQuota=400 (%s)" % out
+    return None
+
+
+def o_combinators(run, deep):
+    eng, ctx = engine(), fresh_ctx()
+    insts = gen_limitfacts.combinator_instances()
+    multi, single = gen_limitfacts.combinator_classes()
+    run.note("smart-type combinators exercised on host functions: %s; as members: %s; %d instances"
+             % (", ".join(c.__name__ for c in multi), ", ".join(c.__name__ for c in single) or "-", len(insts)))
+    k = 0
+    for label, vt in insts:
+        acc_iter = vt.check((x for x in ()), ctx, eng)
+        acc_sized = vt.check((0, 1), ctx, eng)
+        if not (acc_iter or acc_sized):
+            run.count("combinator:accepts-no-collection")
+            continue
+        for position in POSITIONS:
+            for N in ([0, 2] if run.quick and not deep else [0, 1, 2, 5]):
+                for what in (["endless"] if acc_iter else []) + (["sized+1", "sized", "quota"] if acc_sized else []):
+                    if what == "quota" and N != 2:
+                        continue
+                    k += 1
+                    how = how_of(k)
+                    out, pulls = run_host(label, position, what, N, how)
+                    run.cov["evaluations"] += 1
+                    run.count("combinator:%s:%s" % (what, out.split(":")[0]))
+                    pred = host_predicate(what, N, out, pulls, position)
+                    if pred:
+                        run.fail("violation", "host function parameter declared %s (%s argument): %s"
+                                 % (label.split("(")[0] + "(...)", position, generalise(pred)),
+                                 {"kind": "combinator", "type": label, "position": position, "input": what, "N": N,
+                                  "options_route": how, "expression": HOST_TEXT[position],
+                                  "observed": {"outcome": out, "pulls": pulls}, "required": pred,
+                                  "theorem": "C08_combinator_params_limited"})
+
+
 def oracle(run, deep):
     corpus = load_corpus()
+    o_combinators(run, deep)
     o_direct(run, deep)
     o_sweep(run, deep)
     o_expressions(run, deep, corpus)
@@ -1532,6 +1662,9 @@ def replay(run, data):
         i = d["input"]
         raised, other = eval_chain(i["expr"], i["vars"], i["Q"], i.get("options_route", "copy"))
         return chain_predicate(i["expr"], i["Q"], i["sizes_inside"], raised, other) is None
+    if kind == "combinator":
+        out, pulls = run_host(d["type"], d["position"], d["input"], d["N"], d.get("options_route", "copy"))
+        return host_predicate(d["input"], d["N"], out, pulls, d["position"]) is None
     if kind == "typed-param":
         for r in registry():
             if r["payload"] == d["payload"] and r["key"] == d["parameter"]:
